@@ -148,6 +148,37 @@ theorem valid_side_accepted (r : Request) (m : Meth) (wf : WellFormed r m)
     (frontEnd r).outcome ≠ .threw (errT .wrong_parameter_error) :=
   fun hc => ((validate_matches_spec r m wf).mp hc) h
 
+/-- **NaN is never accepted where a range is documented**: the specification is false as soon as a real keyword that
+    has a documented range for the method holds NaN (IEEE: every comparison with NaN is false), hence - by
+    `validate_matches_spec` - such a request is answered by `wrong_parameter_error`.  `+inf` is excluded by every
+    bounded range and admitted by the one-sided ones ("non-positive width", "negative theta" do not describe it). -/
+theorem nan_violates_spec (m : Meth) (n dim : Nat) (v : Kw → XReal) (b : Bool)
+    (h : (m ∈ [Meth.LaplacianEigenmaps, .LocalityPreservingProjections, .DiffusionMap] ∧ v .gaussian_kernel_width = .nan) ∨
+         (m = .StochasticProximityEmbedding ∧ v .spe_tolerance = .nan) ∨
+         (m ∈ [Meth.LandmarkIsomap, .LandmarkMultidimensionalScaling] ∧ v .landmark_ratio = .nan) ∨
+         (m = .tDistributedStochasticNeighborEmbedding ∧ (v .sne_perplexity = .nan ∨ v .sne_theta = .nan)) ∨
+         (m = .FactorAnalysis ∧ v .fa_epsilon = .nan) ∨
+         (m = .ManifoldSculpting ∧ v .squishing_rate = .nan)) :
+    ¬ SpecHolds m n dim v b := by
+  intro hs
+  obtain ⟨⟨-, -, h3, -, h5, h6, h7, h8, h9⟩, -⟩ := hs
+  rcases h with ⟨hm, hv⟩ | ⟨hm, hv⟩ | ⟨hm, hv⟩ | ⟨hm, hv | hv⟩ | ⟨hm, hv⟩ | ⟨hm, hv⟩
+  · have := h3 hm; rw [hv] at this; exact XReal.lt_nan _ this
+  · have := (h5 hm).1; rw [hv] at this; exact XReal.lt_nan _ this
+  · have := (h6 hm).1; rw [hv] at this; exact XReal.le_nan _ this
+  · have := (h7 hm).1.1; rw [hv] at this; exact XReal.le_nan _ this
+  · have := (h7 hm).2; rw [hv] at this; exact XReal.le_nan _ this
+  · have := h8 hm; rw [hv] at this; exact XReal.le_nan _ this
+  · have := (h9 hm).1; rw [hv] at this; exact XReal.le_nan _ this
+
+/-- non-vacuity / the cases of seeded change C14-t2a: NaN and ±inf at work on the model -/
+example : (frontEnd ⟨10, [⟨.method, .method .ManifoldSculpting⟩, ⟨.squishing_rate, .real .nan⟩], false, true, true, false, 10⟩).outcome
+    = .threw (errT .wrong_parameter_error) := by decide +kernel
+example : (frontEnd ⟨10, [⟨.method, .method .LandmarkIsomap⟩, ⟨.landmark_ratio, .real .posInf⟩], false, true, false, false, 10⟩).outcome
+    = .threw (errT .wrong_parameter_error) := by decide +kernel
+example : (frontEnd ⟨10, [⟨.method, .method .LaplacianEigenmaps⟩, ⟨.gaussian_kernel_width, .real .posInf⟩], false, true, false, true, 10⟩).outcome
+    = .reached .distance := by decide +kernel
+
 /-- non-vacuity: a concrete well-formed Isomap request (N = 10, k = 3) meets `WellFormed` and the specification -/
 example : WellFormed ⟨10, [⟨.method, .method .Isomap⟩, ⟨.num_neighbors, .int 3⟩], false, true, false, false, 10⟩ .Isomap :=
   ⟨by decide, by decide, by intro p hp; simp at hp; rcases hp with rfl | rfl <;> rfl, by decide,
